@@ -5,10 +5,7 @@ package face
 import (
 	"github.com/named-data/ndnd/fw/dispatch"
 	"github.com/named-data/ndnd/fw/fw"
-	enc "github.com/named-data/ndnd/std/encoding"
 )
-
-var _ = enc.TypeName
 
 // Contracts for the gcv verifier (/verif); compiled only with build tag `verif`.
 
@@ -71,70 +68,3 @@ func forallIn(lo, hi int, f func(int) bool) bool {
 //@   loop 2 invariant forallIn(0, len(l.partialMessageStore[baseSequence]), func(i int) bool { return len(l.partialMessageStore[baseSequence][i]) != 0 })
 //@   loop 2 invariant forallIn(0, rangeindex+1, func(i int) bool { return sameSlice(reassembled[i], l.partialMessageStore[baseSequence][i]) })
 //@   loop 2 invariant forallIn(0, rangeindex+1, func(i int) bool { return len(reassembled[i]) != 0 })
-
-// ---------------------------------------------------------------------------------------
-// stream framing (C11): ghost model of the byte stream behind reader.Read
-// ---------------------------------------------------------------------------------------
-
-var verifS []byte // ghost: every byte reader.Read will ever deliver, in order
-var verifR int    // ghost: how many bytes of verifS Read has delivered so far
-var verifK int    // ghost: offset in verifS of the first byte not yet handed to onFrame
-
-// specStart(q): q is a block boundary of the stream verifS (uninterpreted; constrained by the precondition).
-func specStart(q int) bool { panic("ghost") }
-
-// specBlockSize: total size (T, L and V) of the TLV block that starts at s[q].
-func specBlockSize(s []byte, q int) int {
-	return enc.SpecTLSize(s, q) + enc.SpecTLSize(s, q+enc.SpecTLSize(s, q)) + int(enc.SpecTLVal(s, q+enc.SpecTLSize(s, q)))
-}
-
-// specBlockOK: a well-formed block no larger than a packet starts at s[q]: T and L in shortest form, whole block
-// inside the stream.
-func specBlockOK(s []byte, q int) bool {
-	return enc.SpecTLSize(s, q) == enc.SpecTLLen(enc.SpecTLVal(s, q)) &&
-		enc.SpecTLSize(s, q+enc.SpecTLSize(s, q)) == enc.SpecTLLen(enc.SpecTLVal(s, q+enc.SpecTLSize(s, q))) &&
-		enc.SpecTLVal(s, q+enc.SpecTLSize(s, q)) <= 8800 && specBlockSize(s, q) <= 8800 && q+specBlockSize(s, q) <= len(s)
-}
-
-// specPending: the bytes s[k:r] received so far do not yet contain the complete block that starts at k.
-func specPending(s []byte, k int, r int) bool {
-	return r-k < 1 || r-k < enc.SpecTLSize(s, k)+1 || r-k < enc.SpecTLSize(s, k)+enc.SpecTLSize(s, k+enc.SpecTLSize(s, k)) || r-k < specBlockSize(s, k)
-}
-
-// specWFAt(q): the stream is a concatenation of well-formed blocks, stated at boundary q: if q is a boundary inside
-// the stream, a well-formed block starts there and the position after it is again a boundary. The property quantifies
-// over all such streams; the proof needs the fact only at the current delivery position, where the environment
-// contracts below provide it (a quantified form makes every solver loop on specStart(q+size)).
-func specWFAt(q int) bool {
-	return implies(specStart(q) && 0 <= q && q < len(verifS), specBlockOK(verifS, q) && specStart(q+specBlockSize(verifS, q)))
-}
-
-func implies(a, b bool) bool { return !a || b }
-
-// Property C11: every block of the stream is handed to onFrame exactly once, byte-identical and in order, for every
-// chunking Read may choose (0 <= n <= len(p), any n per call); when the stream ends cleanly every complete block
-// received has been delivered.
-//
-//@ func readTlvStream
-//@   requires ignoreError == nil && reader != nil
-//@   requires verifR == 0 && verifK == 0 && specStart(0)
-//@   requires specWFAt(0)
-//@   call reader.Read modifies p[*], verifR
-//@   call reader.Read ensures 0 <= n && n <= len(p) && verifR == old(verifR)+n && verifR <= len(verifS)
-//@   call reader.Read ensures bytesAt(p, 0, verifS[verifR-n:verifR]) && unchangedExcept(p, 0, n)
-//@   call reader.Read ensures specWFAt(verifK)
-//@   call onFrame requires specStart(verifK) && len(arg0) == specBlockSize(verifS, verifK) && bytesAt(arg0, 0, verifS[verifK:verifK+len(arg0)])
-//@   call onFrame modifies verifK
-//@   call onFrame ensures verifK == old(verifK)+len(arg0) && specWFAt(verifK)
-//@   modifies verifR, verifK
-//@   ensures result == nil ==> specPending(verifS, verifK, verifR)
-//@   assert before ReadTLNum@2 uses enc.lemmaTLContent(rdr.buf, 0, verifS, verifK, rdr.pos) verifK < len(verifS) && uint64(typ) == enc.SpecTLVal(verifS, verifK) && rdr.pos == enc.SpecTLSize(verifS, verifK) && rdr.pos <= recvOff-tlvOff
-//@   assert before EncodingLength@1 uses enc.lemmaTLContent(rdr.buf, enc.SpecTLSize(verifS, verifK), verifS, verifK+enc.SpecTLSize(verifS, verifK), rdr.pos-enc.SpecTLSize(verifS, verifK)) uint64(len) == enc.SpecTLVal(verifS, verifK+enc.SpecTLSize(verifS, verifK)) && enc.SpecTLSize(verifS, verifK)+enc.SpecTLSize(verifS, verifK+enc.SpecTLSize(verifS, verifK)) <= recvOff-tlvOff
-//@   assert before onFrame@1 tlvSize == specBlockSize(verifS, verifK)
-//@   loop 1 invariant 0 <= tlvOff && tlvOff <= recvOff && recvOff <= len(recvBuf) && len(recvBuf) == 281600 && fresh(recvBuf)
-//@   loop 1 invariant specWFAt(verifK) && specStart(verifK) && 0 <= verifK && verifK+(recvOff-tlvOff) == verifR && verifR <= len(verifS)
-//@   loop 1 invariant bytesAt(recvBuf, tlvOff, verifS[verifK:verifR])
-//@   loop 1 invariant specPending(verifS, verifK, verifR)
-//@   loop 2 invariant 0 <= tlvOff && tlvOff <= recvOff && recvOff <= len(recvBuf) && len(recvBuf) == 281600 && fresh(recvBuf)
-//@   loop 2 invariant specWFAt(verifK) && specStart(verifK) && 0 <= verifK && verifK+(recvOff-tlvOff) == verifR && verifR <= len(verifS)
-//@   loop 2 invariant bytesAt(recvBuf, tlvOff, verifS[verifK:verifR])
